@@ -449,6 +449,19 @@ func (g *G) exec(env []px.Context, p *Prog) {
 				g.body(prepend(c, env), p.Body)
 			})
 		})
+	case "DoParent":
+		// pcore.DoWithParent(lexical, actor): the fork is taken by the entry point (internal/runtime.go:251)
+		lc := g.lex(env)
+		ps := w.sh(lc)
+		snap := ps.fork(p.L)
+		parentLoader := ps.loader
+		g.guard(func() {
+			pcore.DoWithParent(lc, func(c px.Context) {
+				defer g.scopeEnd()
+				w.register(c, p.L, snap, parentLoader)
+				g.body(prepend(c, env), p.Body)
+			})
+		})
 	case "DoLoader":
 		c := g.lex(env)
 		l, sl := g.evalLE(c, p)
@@ -806,6 +819,9 @@ type outcome struct {
 var caseCounter, leaksSeen int
 
 func runCase(cs *Case) *outcome {
+	if cs.MinGid > 0 {
+		burnTo(uint64(cs.MinGid)) // family highgid: goroutine ids of at least that size
+	}
 	caseCounter++
 	w := &world{caseNo: caseCounter, c: cs, base: pcore.EnvironmentLoader(), ctxLabel: map[px.Context]int{},
 		ldrLabel: map[px.Loader]int{}, shadowCtx: map[int]*shCtx{}, shadowLdr: map[int]*shLdr{}}
